@@ -110,6 +110,18 @@ pub fn c20_probes(t: &[u8]) -> Option<(Vec<Probe>, u64, u64)> {
 				worst = l;
 			}
 		}
+		{
+			// alternating ends on ONE iterator
+			let mut it = p.segments();
+			loop {
+				let a = it.next();
+				let b = it.next_back();
+				n += a.is_some() as usize + b.is_some() as usize;
+				if a.is_none() && b.is_none() {
+					break;
+				}
+			}
+		}
 		for sg in p.segments().rev() {
 			n += 1;
 			let l = locate(input, sg.as_bytes());
